@@ -232,9 +232,9 @@ def run(rep):
         raise AnalysisError("gis/gutils.py: call site of points_inside_polygon not found")
     st = st[0]
     v = st.args.get("inside")
-    rep.check(v is not None and v[1].init == ("zeros",), "R15.b", "gis/gutils.py", "points_inside_polygon",
-              "`inside` is zero on every path to the kernel (np.zeros when allocated here, fill(0) when supplied by the caller)",
-              f"init at the call: {v[1].init if v else None}: a re-used buffer keeps stale answers for points outside the bounding box", line=st.call.lineno)
+    xlayer.check_init(rep, v, ("zeros",), "R15.b", "gis/gutils.py", "points_inside_polygon",
+                      "`inside` is zero on every path to the kernel (np.zeros when allocated here, fill(0) when supplied by the caller)", st.call.lineno, need_fresh=False,
+                      detail_bad=f"init at the call: {v[1].init if v else None}: a re-used buffer keeps stale answers for points outside the bounding box", fdef=st.func)
     ok, how, _ = xlayer.error_discipline(st)
     rep.check(ok, "R15.b", "gis/gutils.py", "points_inside_polygon", "kernel error code raises", how, line=st.call.lineno)
     pa_ = pq.call_arguments(st.func, st.call, list(st.shim.params))
